@@ -171,3 +171,44 @@ def sync_bounds(tier):
         return {'status': 'fail', 'failures': failures, 'obligations': len(bounds) + 1, 'discharged': len(bounds) + 1 - len(failures)}
     finally:
         shutil.rmtree(scratch, ignore_errors=True)
+
+
+@extra
+def stack_depth(tier):
+    """C05: stack depth cannot be stated as a contract (neither verifier has a stack model).  The known finding
+    (unbounded recursion in parser / evaluator / derived Drop) is re-demonstrated on the real crate in a subprocess;
+    each input is its own obligation, so a different deep input that starts to abort is reported as a violation."""
+    import replaydrv
+    scratch = tempfile.mkdtemp(prefix='vf_stack_')
+    try:
+        try:
+            exe = replaydrv.build(scratch)
+        except Exception as e:
+            return {'status': 'undecided', 'reason': 'replay driver build failed: %r' % e}
+        n = 200000
+        inputs = {
+            'nested-parens': ('(' * n + 'a' + ')' * n, '{}'),
+            'nested-not': ('!' * n + 'a', '{}'),
+            'nested-multiselect': ('[' * n + 'a' + ']' * n, '{}'),
+            'long-subexpression-chain': ('a' + '.a' * n, '{}'),
+        }
+        fails = []
+        ok = 0
+        for name, (e, d) in inputs.items():
+            ef = os.path.join(scratch, name + '.expr')
+            open(ef, 'w').write(e)
+            p = subprocess.run([exe, 'searchfile', ef, d], capture_output=True, text=True, timeout=300)
+            if p.returncode < 0 or p.returncode >= 128 or 'overflow' in p.stderr:
+                fails.append({'obligation': 'extra/stack_depth#abort:%s' % name, 'kind': 'abort', 'label': name, 'properties': ['C05'],
+                              'function': 'parser.rs::Parser::expr / interpreter.rs::interpret (unbounded recursion)',
+                              'message': 'process aborted (return code %d): %s' % (p.returncode, p.stderr.strip()[-200:]),
+                              'clause': 'compile/search return Ok or Err on every input', 'site': {'repo': 'jmespath/src/parser.rs, interpreter.rs, ast.rs'},
+                              'rendered': 'replay_driver searchfile <%s, %d levels> -> return code %d, stderr: %s' % (name, n, p.returncode, p.stderr.strip()[-300:]),
+                              'backend': 'extra', 'witness': {'input': name, 'levels': n}, 'witness_replayed': True})
+            else:
+                ok += 1
+        return {'status': 'fail' if fails else 'ok', 'failures': fails, 'obligations': 0, 'discharged': 0,
+                'cmd': 'replay_driver searchfile <deep inputs> (subprocess on the real crate)', 'demonstrated': [f['label'] for f in fails],
+                'note': 'not a proof obligation: a demonstration that the known stack-depth finding still reproduces'}
+    finally:
+        shutil.rmtree(scratch, ignore_errors=True)
